@@ -61,6 +61,8 @@ class Prop(PropBase):
             ref = rng.choice(["none", "top", "bottom", "above", "below", "inside", "inf"])
             # choose DM so that the largest |delay| is about `target` samples (either sign)
             target = rng.choice([0.4, 0.5, 1.5, 2.5, 3.0, L / 3, L - 1, L, L + 3.5, rng.uniform(0, L + 5)])
+            if rng.random() < 0.06:
+                target = rng.choice([2.0**31 + 7.3, 3.1e9, 2.0**33 + 0.4])      # sweeps far longer than the record (32-bit sample counts overflow)
             yield {"op": "incoh", "cls": cls, "n": n, "L": L, "rate": rate_hz, "cf": cf_hz, "bw": bw_hz,
                    "al": rng.choice(["bottom", "center", "top"]), "ref": ref, "target": target,
                    "sign": rng.choice([1, -1]), "t0": rng.choice(sigs.T0S + [None]), "extra": rng.choice([0, 0, 2]),
